@@ -45,6 +45,7 @@ type replGen struct {
 	usables  []string // "Module::method" pairs not imported yet
 	methods0 []string // parameterless methods imported with using
 	pool     []int    // input kinds of the session's themes
+	closures []string // closures over top-level locals
 }
 
 func (g *replGen) fresh(prefix string) string {
@@ -82,16 +83,39 @@ var replThemes = map[string][]int{
 	"throwers": {36, 36, 37, 38, 37, 12, 13, 17, 18},
 	"using":    {39, 39, 40, 41, 42, 43, 40, 42, 24, 28, 25},
 	"ghosts":   {23, 23, 24, 25, 26, 27, 28, 17},
+	"closures": {12, 13, 44, 44, 45, 45, 46, 46, 15, 16, 19, 20, 28},
 }
 
 func (g *replGen) next() string {
 	pool := g.pool
 	if len(pool) == 0 {
-		for k := 0; k < 44; k++ {
+		for k := 0; k < 47; k++ {
 			pool = append(pool, k)
 		}
 	}
 	switch k := pool[g.r.Intn(len(pool))]; {
+	case k == 44:
+		// a closure that reads a top-level local of an earlier input
+		if len(g.locals) > 0 {
+			c := g.fresh("cl")
+			g.closures = append(g.closures, c)
+			return fmt.Sprintf("%s := || -> %s + %d", c, Pick(g.r, g.locals), g.r.Range(100, 900))
+		}
+		return fmt.Sprintf("println \"T:%d:lit\"", g.n)
+	case k == 45:
+		if len(g.closures) > 0 {
+			return fmt.Sprintf("println \"T:%d:${%s.()}\"", g.n, Pick(g.r, g.closures))
+		}
+		return fmt.Sprintf("println \"T:%d:lit\"", g.n)
+	case k == 46:
+		// a closure that writes a top-level local
+		if len(g.locals) > 0 {
+			c := g.fresh("cw")
+			l := Pick(g.r, g.locals)
+			g.closures = append(g.closures, c)
+			return fmt.Sprintf("%s := || -> do\n  %s = %s + %d\n  %s\nend", c, l, l, g.r.Range(1, 9), l)
+		}
+		return fmt.Sprintf("println \"T:%d:lit\"", g.n)
 	case k == 30:
 		// a class without instance variables
 		c := g.fresh("Ke")
@@ -249,7 +273,7 @@ func (*c27Engine) Generate(seed uint64, tier string) *Case {
 	r := NewRand(seed)
 	g := &replGen{r: r}
 	if r.Chance(0.8) {
-		names := []string{"methods", "classes", "values", "ivars", "circular", "throwers", "using", "ghosts"}
+		names := []string{"methods", "classes", "values", "ivars", "circular", "throwers", "using", "ghosts", "closures"}
 		for i := 0; i < r.Range(1, 3); i++ {
 			g.pool = append(g.pool, replThemes[Pick(r, names)]...)
 		}
@@ -259,6 +283,7 @@ func (*c27Engine) Generate(seed uint64, tier string) *Case {
 		n = r.Range(4, 14)
 	}
 	var p replParams
+	scripted := false
 	if r.Chance(0.35) {
 		// scripted skeleton: a multi-step sequence of the kind that exposed a defect
 		// before, with its invalid step drawn at random and random inputs in between
@@ -273,7 +298,7 @@ func (*c27Engine) Generate(seed uint64, tier string) *Case {
 			})
 		}
 		var script []string
-		switch r.Intn(6) {
+		switch r.Intn(10) {
 		case 0:
 			script = []string{"module Foo\n  def ua: Int\n    1\n  end\n  def ub: Int\n    2\n  end\nend", "using Foo::ua", "println \"T:s1:${ua()}\"", invalid(), "using Foo::ub", "println \"T:s2:${ub()}\""}
 		case 1:
@@ -285,9 +310,22 @@ func (*c27Engine) Generate(seed uint64, tier string) *Case {
 			script = []string{"def sm(x: Int): Int\n  y := x + 2\n  y * 2\nend", "const SK: Int = sm(5)", "sb := 1 + SK", "println \"T:s6:${sb}\""}
 		case 4:
 			script = []string{"println \"T:s7:0\"", "const SFOO: Int = sbar()\ndef sbar: Int\n  SFOO * 5\nend", "println \"T:s8:1\"", "println \"T:s9:2\""}
-		default:
+		case 5:
 			script = []string{"def sthr: Int\n  throw unchecked 7\nend", "var sz = 9", "println(1 + sthr())", "var sa2 = 5", "var sb2 = 6", "println \"T:s10:${sa2} ${sb2} ${sz}\""}
+		case 6:
+			// a method redefined and called in the same input
+			script = []string{"def sh: Int\n  1\nend", "# redefinition\ndef sh: Int\n  2\nend\nprintln \"T:s11:${sh()}\"", "println \"T:s11b:${sh()}\""}
+		case 7:
+			// a caller compiled before its callee is redefined
+			script = []string{"def sh2: Int\n  1\nend", "def scaller: Int\n  sh2() + 10\nend", "# redefinition\ndef sh2: Int\n  2\nend", "println \"T:s12:${scaller()}\""}
+		case 8:
+			// a rejected constant initialised from an existing method, then the method is redefined to read a constant of that name
+			script = []string{"def shelper: Int\n  1\nend", "const SX: Int = shelper()\n" + invalid(), "const SX: Int = 5", "# redefinition\ndef shelper: Int\n  SX\nend", "println \"T:s13:${shelper()}\""}
+		default:
+			// closures over top-level locals across inputs
+			script = []string{"var sc = 1", "sf := || -> sc + 100", "sc = 10", "println \"T:s14:${sf.()}\"", "sg := || -> do\n  sc = sc + 1\n  sc\nend", "sg.()", "println \"T:s15:${sc} ${sf.()}\""}
 		}
+		scripted = true
 		for _, step := range script {
 			if r.Chance(0.3) {
 				p.Inputs = append(p.Inputs, g.next())
@@ -305,8 +343,15 @@ func (*c27Engine) Generate(seed uint64, tier string) *Case {
 		p.FailInput = r.Intn(len(p.Inputs)-1) + 1 // 1-based
 		p.FailEval = r.Range(1, 24)
 	}
-	for i := 0; i < 2; i++ {
-		p.Batch = append(p.Batch, r.Intn(len(p.Inputs)))
+	if scripted {
+		// every step of a scripted sequence is compared with its batch run
+		for i := range p.Inputs {
+			p.Batch = append(p.Batch, i)
+		}
+	} else {
+		for i := 0; i < 2; i++ {
+			p.Batch = append(p.Batch, r.Intn(len(p.Inputs)))
+		}
 	}
 	b, _ := json.Marshal(&p)
 	sc := drawSched(r, 1_000_000)
@@ -523,19 +568,28 @@ func (*c27Engine) Execute(t *testing.T, c *Case) *Verdict {
 			continue
 		}
 		var parts []string
+		// A batch program hoists definitions, so every call sees the last definition of a
+		// method. The session agrees with that from the last redefinition on, unless something
+		// was *evaluated* before it (a local or a constant computed with the old body). The
+		// comparison is therefore made when every accepted input in front of the last
+		// redefinition is a pure definition, and skipped (counted) otherwise.
+		lastRedef := -1
+		for j := 0; j <= bi; j++ {
+			if segs[j].Status == "ok" && strings.HasPrefix(p.Inputs[j], "# redefinition") {
+				lastRedef = j
+			}
+		}
 		redefined := false
+		afterRedef := lastRedef >= 0
 		for j := 0; j < bi; j++ {
 			if segs[j].Status == "ok" {
 				parts = append(parts, p.Inputs[j])
-				if strings.HasPrefix(p.Inputs[j], "# redefinition") {
+				if j < lastRedef && !pureDefinition(p.Inputs[j]) {
 					redefined = true
 				}
 			}
 		}
 		if redefined {
-			// definitions are hoisted in a batch program: inputs evaluated before a
-			// redefinition saw the old definition in the session, the batch program
-			// never does. Not comparable; oracle 1 still covers these sessions.
 			v.Extra["batch_skipped_redefinition"]++
 			continue
 		}
@@ -567,10 +621,39 @@ func (*c27Engine) Execute(t *testing.T, c *Case) *Verdict {
 		}
 		v.Extra["batch_compared"]++
 		if strings.Join(tail, "\n") != strings.Join(segs[bi].Tokens, "\n") {
-			return bad("batch", "input %d printed %q in the session but %q at the end of a batch run of the accepted inputs before it plus itself\n--- batch program:\n%s", bi+1, segs[bi].Tokens, tail, src)
+			vv := bad("batch", "input %d printed %q in the session but %q at the end of a batch run of the accepted inputs before it plus itself\n--- batch program:\n%s", bi+1, segs[bi].Tokens, tail, src)
+			if afterRedef {
+				vv.Sig = "batch/after-redefinition"
+			}
+			return vv
 		}
 	}
 	return v
+}
+
+// pureDefinition reports whether an input only defines things (nothing is
+// evaluated when it runs).
+func pureDefinition(in string) bool {
+	in = strings.TrimPrefix(in, "# redefinition\n")
+	depth := 0
+	for _, l := range strings.Split(in, "\n") {
+		t := strings.TrimSpace(l)
+		if t == "" || strings.HasPrefix(t, "#") {
+			continue
+		}
+		if l == t { // a top-level line
+			switch {
+			case strings.HasPrefix(t, "def "), strings.HasPrefix(t, "class "), strings.HasPrefix(t, "module "):
+				depth++
+			case t == "end":
+				depth--
+			case strings.HasPrefix(t, "using "):
+			default:
+				return false
+			}
+		}
+	}
+	return true
 }
 
 func plus1(xs []int) []int {
